@@ -76,21 +76,28 @@ def run(tier, seed):
     tmp = tempfile.mkdtemp(prefix="c05-")
     try:
         failing = []
-        cases = build_cases(ck, tmp)
-        mres = interp.model_batch(ck, [["create", d, [[p, c] for p, c in files.items()], []] for d, files, _ in cases])
-        for (desc, files, expect), mr in zip(cases, mres):
-            ires = interp.run_impl(interp.impl_create, desc)
-            ck.count(expect["kind"], json.dumps(desc, sort_keys=True, default=str), nontrivial=ires[0] == "ok",
-                     sample={"kind": expect["kind"], **{k: v for k, v in expect.items() if k in ("size", "alg", "form")}})
-            if mr != ires and not any(b[1] == "Interp.create (files)" for b in ck.broken):
-                ck.broken.append(("corr", "Interp.create (files)", f"{json.dumps(desc, default=str)[:500]}: model {short(mr)} implementation {short(ires)}"))
-            inp = {"description": desc, "files": {p: c.hex() for p, c in files.items()}}
-            if ires[0] != "ok":
-                failing.append({"input": inp, "observed": f"create raised {ires[1]}", "expected": "created"})
-                continue
-            why = oracle(expect, ires[1], files)
-            if why:
-                failing.append({"input": inp, "observed": why, "expected": "the envelope describes exactly the referenced files"})
+        # histories: the SAME paths are rewritten with other contents (other lengths) between creates in one process, then
+        # restored — what a create reads is the file as it is at that moment (no memory of earlier creates)
+        for variant in (0, 1, 0):
+            cases = build_cases(ck, tmp, variant)
+            mres = interp.model_batch(ck, [["create", d, [[p, c] for p, c in files.items()], []] for d, files, _ in cases])
+            for (desc, files, expect), mr in zip(cases, mres):
+                ires = interp.run_impl(interp.impl_create, desc)
+                ck.count(expect["kind"] + ("" if variant == 0 else "_rewritten"), json.dumps(desc, sort_keys=True, default=str) + str(variant),
+                         nontrivial=ires[0] == "ok",
+                         sample={"kind": expect["kind"], "history": ["first write", "same paths rewritten", "restored"][ck.cov.get("_pass", 0)],
+                                 **{k: v for k, v in expect.items() if k in ("size", "alg", "form")}})
+                if mr != ires and not any(b[1] == "Interp.create (files)" for b in ck.broken):
+                    ck.broken.append(("corr", "Interp.create (files)", f"{json.dumps(desc, default=str)[:500]}: model {short(mr)} implementation {short(ires)}"))
+                inp = {"description": desc, "files": {p: c.hex() for p, c in files.items()}, "history": f"pass {ck.cov.get('_pass', 0)}: variant {variant} written to the same paths"}
+                if ires[0] != "ok":
+                    failing.append({"input": inp, "observed": f"create raised {ires[1]}", "expected": "created"})
+                    continue
+                why = oracle(expect, ires[1], files)
+                if why:
+                    failing.append({"input": inp, "observed": why, "expected": "the envelope describes exactly the referenced files"})
+            ck.cov["_pass"] = ck.cov.get("_pass", 0) + 1
+        ck.cov.pop("_pass", None)
         failing += f8_replay(ck, tmp)
         ck.cov["rule"] = ("kinds: digest/size from file, file_direct, raw; payload by path; dependency inline / by path (depth 2-3); "
                           "digest and size of a dependency by envelope; sizes x algorithms x reference forms enumerated (quick: all sizes "
@@ -101,7 +108,7 @@ def run(tier, seed):
         shutil.rmtree(tmp, ignore_errors=True)
 
 
-def build_cases(ck, tmp):
+def build_cases(ck, tmp, variant=0):
     cases = []
     n = [0]
 
@@ -118,7 +125,8 @@ def build_cases(ck, tmp):
     sizes = SIZES if ck.deep else SIZES[:7]
     combos = [(s, a) for s in sizes for a in (algs if (ck.deep or s == 255) else [algs[(s + 1) % 5]])]
     for size, alg in combos:
-        c = blob(size, size)
+        c = blob(size + 7 * variant, size + variant)
+        size = len(c)
         # image digest + size from the same file
         p = fpath(c)
         files = {p: c}
@@ -146,7 +154,7 @@ def build_cases(ck, tmp):
     # dependencies: inline and by path, depth 2 and 3; digest / size of the dependency by envelope
     for depth in (2, 3):
         for alg in (algs if ck.deep else algs[:2]):
-            leaf_payload = blob(24, depth)
+            leaf_payload = blob(24 + 9 * variant, depth + variant)
             lp = fpath(leaf_payload, "leaf.bin")
             child = base_env({"suit-manifest-component-id": ["C", depth]}, {"suit-integrated-payloads": {"#leaf": lp}}, alg=algs[depth % 5])
             files = {lp: leaf_payload}
